@@ -28,11 +28,31 @@ checks = {
    text="All histories of preprocess/archive/postprocess/finisher passes from a fresh seed up to 6 (quick) / 8 (thorough) nodes: 60 k / 2 M canonical states; in every state CheckConsistency, direct structural checks, dedupe exactness (one node per URL, no URL lost), completion <=> nothing pending, equality with the reference tree.",
    note="URLs compared only for equality (states canonical up to URL renaming); stage passes transcribed from the stage code (guards included).",
    ref="4/C11"),
+ "C19": dict(level="exploration", engine="grid",
+   technique="exhaustive enumeration of generated JSON/XML/RSS/sitemap/M3U8 documents with planted URLs through the real NormalizeURL, ProcessBody and postprocessItem; explicit-state walk of simulated S3 buckets (all key sets x page sizes x API versions) through the real S3 extractor until the frontier empties",
+   text="183 k (quick) / 2.1 M (thorough) documents and 2 916 / 32 805 bucket walks; planted URLs must be discovered, those with a file extension become assets and the others outlinks iff the hop limit allows; every non-empty object of a bucket must be queued and the walk must terminate.",
+   note="Planted and extracted URLs compared modulo Zeno's own NormalizeURL; RSS/sitemap judged for discovery only; each listing page evaluated at hops 0 with max-hops 1; path-style buckets outside the grid.",
+   ref="4/C19"),
  "C12": dict(level="model_checking", engine="explore",
    technique="stateless DFS model checking of the real reactor under a controlled scheduler (preemption-bounded, happens-before state cache) + brute-force linearizability check",
    text="Every schedule of 2 producers, a consumer, a controller and the reactor's own goroutine on the real reactor code, with at most P preemptions (quick P=1, thorough P=2) and all select outcomes, is executed; each complete call history is checked for linearizability against the sequential specification, the token/state-table accounting is checked whenever no call is in flight, feedback is checked never to be disabled, and deadlock/panic end the run as violations.",
    note="Scheduling points are the channel, sync, atomic and context operations of internal/pkg/reactor as found by the instrumenter in the working tree; data races between those points are not explored. sync.Map.Range order fixed to insertion order. Token counts 1 and 2, three seeds.",
    ref="4/C12"),
+ "C13": dict(level="model_checking", engine="opbfs",
+   technique="explicit-state breadth-first search over event histories (acquire / failure(status) / success / advance) on the real token bucket under a manual virtual clock, every stored state re-derived from scratch; plus controlled-scheduler exploration of two concurrent waiters and an adjuster on the real BucketManager (preemption- and timer-deviation-bounded)",
+   text="All histories to depth 7 (quick) / 10 (thorough) over 12 symbols (every status 100-599 at the first two positions) for capacity {1,2,3} x rate {0.2,0.5,1,4}/s (+0.1, 50, defaults in thorough) plus failure streaks up to 70: 0.8 M / 11 M canonical states; oracle on every state and release list: tokens in [0,capacity], refill rate within [min(0.5,rate), rate], pairwise window bound, no release inside a penalty computed by an independent counter, 5xx never raises and success never overshoots. Concurrent part: P<=1 F<=1 (quick), P<=2 (thorough).",
+   note="Penalty counter k read in the weakest way (failures since the last success); 1e-6 token slack for float arithmetic; LFU eviction of a penalised host beyond maxBuckets is reported as an observation only.",
+   ref="4/C13"),
+ "C14": dict(level="model_checking", engine="explore",
+   technique="stateless model checking of the real pause manager and the four real stage worker loops (full pipeline on a fake site) under the controlled scheduler: every Pause/Resume script of two independent controllers up to length 2 each (3 for one) x optional stop sequence, all schedules within a delay bound, all select outcomes",
+   text="42 scenarios; every schedule with at most D deviations (quick D=1, thorough D=2). Oracle: every Pause()/Resume()/stop call returns and no worker is parked outside its idle point unless the history legitimately ends paused; a worker that acknowledged a pause takes no seed before it is resumed; a Resume() that found the pipeline paused releases every worker that had acknowledged before it started; an unpaused pipeline finishes its seeds; no panic.",
+   note="Controllers start after every worker has subscribed (Subscribe concurrent with Pause is outside the alphabet, as in Zeno where the first watchdog tick comes seconds after start-up); sync.Map.Range in insertion order.",
+   ref="4/C14"),
+ "C17": dict(level="model_checking", engine="explore",
+   technique="unbounded stateless model checking (all interleavings, happens-before state cache) of 1-3 threads of real stats operations under the controlled scheduler, brute-force sequential-order oracle; plus a free-running -race pass over the same bodies",
+   text="1 909 (quick) / 46 479 (thorough) scenarios = every multiset of thread programs over the per-metric alphabets; every interleaving of the package's atomic and mutex operations is executed; final totals, gauges and means must equal those of some program-order-respecting sequential order on an atomic reference model, and two reporting paths of one metric must agree. A data race inside internal/pkg/stats reported by the race pass is a violation.",
+   note="Scheduling points only at atomic/mutex operations (plain accesses are covered by the -race pass, which is a sample of schedules); worker gauges vs live workers are checked in the pipeline harnesses.",
+   ref="4/C17"),
  "C18": dict(level="exploration", engine="grid",
    technique="exhaustive boundary-grid enumeration of (total, free, min-space) through checkThreshold/CheckDiskUsage with exact rational oracle (math/big), every operator flag value through the real flag/viper path, and all 3-tick reading sequences of the real WatchDiskSpace under the virtual clock",
    text="199 k (quick) / 55.6 M (thorough) distinct triples incl. every byte around each threshold, the 256 GiB switch and float64 edges; refusal <=> free < threshold exactly, monotone in free; 1 084 / 20 082 flag settings resolved through the real CLI path; 506 watcher executions.",
